@@ -32,6 +32,7 @@ type Clause struct {
 type LoopSpec struct {
 	Invariants []*Clause
 	Modifies   []string
+	Preserves  []string
 }
 
 type Contract struct {
@@ -56,12 +57,15 @@ type Contract struct {
 	Uses      []string
 	Vars      []LemmaVar // lemma only
 	IsLemma   bool
+	Preserves []*Clause // closure contracts: facts over captured variables and world that hold before and after each call (requires + ensures); the iterating caller checks them once and may assume them afterwards
+	Iterates  bool      // the function applies its closure argument to each element of a collection (A-ITER)
 	Hints     []*Clause // intermediate facts at the return sites (may mention named locals); proved, then assumed
 	Canary    []*Clause // deliberately false ensures: must be refuted
 	EffectFree bool
 	Assumes   []string // free text assumptions recorded in evidence
 	ArgNames  []string // explicit parameter names for prelude contracts
 	Allocates bool     // the callee may allocate fresh slices/maps (fresh(result) is meaningful)
+	Applies   []string // "lemmaName with x = e, y = e": instances of other lemmas of the same package, assumed (the lemma itself is an obligation of its own)
 	Opaque    []string // spec functions whose definitions are hidden (declared, not defined) in this function's VCs
 	used      bool
 }
@@ -309,6 +313,23 @@ func parseContractFile(path string, pkgPath string) ([]*Contract, error) {
 				c.Label = fmt.Sprintf("post%d", len(cur.Ensures))
 			}
 			cur.Ensures = append(cur.Ensures, c)
+		case "preserves":
+			c, err := parseClause("preserves", rest)
+			if err != nil {
+				return nil, fail(err)
+			}
+			if c.Label == "" {
+				c.Label = fmt.Sprintf("preserved%d", len(cur.Preserves))
+			}
+			cur.Preserves = append(cur.Preserves, c)
+			rq := *c
+			rq.Kind = "requires"
+			cur.Requires = append(cur.Requires, &rq)
+			en := *c
+			en.Kind = "ensures"
+			cur.Ensures = append(cur.Ensures, &en)
+		case "iterates":
+			cur.Iterates = true
 		case "hint":
 			c, err := parseClause("hint", rest)
 			if err != nil {
@@ -382,6 +403,12 @@ func parseContractFile(path string, pkgPath string) ([]*Contract, error) {
 						ls.Modifies = append(ls.Modifies, m)
 					}
 				}
+			case "preserves":
+				for _, m := range splitTopLevel(after, ',') {
+					if m = strings.TrimSpace(m); m != "" {
+						ls.Preserves = append(ls.Preserves, m)
+					}
+				}
 			default:
 				return nil, fail(fmt.Errorf("unknown loop clause %q", f[1]))
 			}
@@ -407,6 +434,8 @@ func parseContractFile(path string, pkgPath string) ([]*Contract, error) {
 			cur.Overflow = true
 		case "uses":
 			cur.Uses = append(cur.Uses, strings.Fields(rest)...)
+		case "apply":
+			cur.Applies = append(cur.Applies, rest)
 		case "allocates":
 			cur.Allocates = true
 		case "opaque":
